@@ -107,6 +107,20 @@ func (m *Mutex) Unlock() {
 	if !m.release() && t != nil {
 		panic("sync: unlock of unlocked mutex")
 	}
+	afterUnlock(t)
+}
+
+// YieldAfterUnlock makes every Unlock / RUnlock a scheduling point of its own
+// (besides the one before every Lock): another task can then run between a
+// lock release and whatever the releasing task does next without a lock. A
+// harness sets it for its runs (and resets it); off, a task keeps running
+// from an unlock to its next synchronisation operation.
+var YieldAfterUnlock bool
+
+func afterUnlock(t *simrt.Task) {
+	if YieldAfterUnlock && t != nil {
+		t.Yield("unlock")
+	}
 }
 
 // ---------------------------------------------------------------- RWMutex
@@ -217,6 +231,7 @@ func (m *RWMutex) RUnlock() {
 	if !m.releaseR() && t != nil {
 		panic("sync: RUnlock of unlocked RWMutex")
 	}
+	afterUnlock(t)
 }
 
 // Lock locks m for writing.
@@ -283,6 +298,7 @@ func (m *RWMutex) Unlock() {
 	if !m.releaseW() && t != nil {
 		panic("sync: Unlock of unlocked RWMutex")
 	}
+	afterUnlock(t)
 }
 
 // RLocker returns a Locker that uses RLock/RUnlock.
